@@ -1076,13 +1076,21 @@ impl Prop for C07 {
             }
             wr = wire_results().lock().unwrap().get(&h).cloned();
         }
-        let mut wired = "";
+        let mut wired = String::new();
         if let (Some(wr), Some(reference)) = (wr, reference_der(c)) {
             match wr {
                 // bindings that do not type-check are C01's subject (listed there); nothing can be run
-                Err(_) => wired = "+wire:not-compilable",
+                Err(e) => {
+                    wired = format!("+wire:not-compilable:{}", e.split(':').next().unwrap_or("?"));
+                    if let Ok(f) = std::env::var("VERIF_C07_DUMP") {
+                        use std::io::Write;
+                        if let Ok(mut fh) = std::fs::OpenOptions::new().create(true).append(true).open(f) {
+                            let _ = writeln!(fh, "{}\t{}\t{}\t{}\t{}", c.route, c.vt.as_ref().map(|t| t.label()).unwrap_or_default(), c.value, e, c.prelude.replace('\n', " ; "));
+                        }
+                    }
+                }
                 Ok(line) => {
-                    wired = "+wire";
+                    wired = "+wire".to_string();
                     let got = line.strip_prefix("hex:").and_then(from_hex);
                     match got {
                         Some(g) if wire_same(&c.expected, &reference, &g) => {}
